@@ -94,6 +94,9 @@ package nflog
 //@   ensures [unexpired-only] forall k string :: k in l.st && (!old(k in l.st) || l.st[k] != old(l.st[k])) ==> tsT(l.st[k].ExpiresAt) >= ret("Log).now") && keyOf(l.st[k]) == k
 //@   ensures [error-unchanged] result != nil ==> dom(l.st) == old(dom(l.st)) && vals(l.st) == old(vals(l.st))
 //@   ensures [wf] wfState(l.st)
+//@   at call broadcast assert [re-gossip-only-a-first-merge] ret("state).merge") && arg0 == b && called("OversizedMessage") && !ret("OversizedMessage")
+//@   ensures [every-first-merge-of-a-small-message-is-re-gossiped] result == nil ==> count("dynamic:field:broadcast") == (OversizedMessage(b) ? 0 : counttrue0("state).merge"))
+//@   loop 1 invariant counttrue0("state).merge") >= 0 && count("dynamic:field:broadcast") == (OversizedMessage(b) ? 0 : counttrue0("state).merge"))
 //@   loop 1 invariant l.st == old(l.st) && wfState(l.st) && l.st != st
 //@   loop 1 invariant forall k string :: old(k in l.st) ==> k in l.st && tsT(l.st[k].Entry.Timestamp) >= old(tsT(l.st[k].Entry.Timestamp))
 //@   loop 1 invariant forall k string :: old(k in l.st) && l.st[k] != old(l.st[k]) ==> tsT(l.st[k].Entry.Timestamp) > old(tsT(l.st[k].Entry.Timestamp))
